@@ -435,7 +435,7 @@ fn sweep(rng: &mut Rng, step: usize, out: &mut dyn Write) {
 
 /// one index file queried through `SqPackIndex` directly: every dat id, offsets at the ends of the
 /// 28-bit range, both kinds, 1..N entries
-fn gen_idx(rng: &mut Rng, out: &mut dyn Write) {
+pub(crate) fn gen_idx(rng: &mut Rng, out: &mut dyn Write) {
     let kind = rng.range(1, 2);
     let n = match rng.below(4) {
         0 => 1,
